@@ -3,7 +3,8 @@ import ScrutModel.Model.Template
 # Model of the single-script execution mode (`src/executors/bash_script_executor.rs`)
 
 * `compileScript`: layout of the script (exports of the first test, then per test: the expression
-  verbatim, an empty line, `echo "<divider>"`, and `1>&2 echo "<divider>"` unless combined).
+  verbatim, an empty line, `__SCRUT_EXIT_CODE=$?`, `echo "<divider>"`, `1>&2 echo "<divider>"` unless
+  combined, and `unset __SCRUT_EXIT_CODE`; the divider text ends in `$__SCRUT_EXIT_CODE`, not in `$?`).
 * `parseDivider` (`parse_divider_bytes`), `parseSalted` (`parse_salted_divider_bytes`), `iterate`:
   splitting a captured stream at the divider lines `~~~~~~~~EXECDIVIDER::<salt>::<index>::<exit code>`;
   only `PREFIX ++ salt ++ "::"` of THIS execution starts a divider (found anywhere in a line: the
@@ -217,14 +218,36 @@ def removeDividers (bs : Bytes) : Bytes :=
 
 def NL : Char := '\n'
 
-def dividerText (salt : List Char) (index : Nat) : List Char :=
-  (PREFIX.map (fun b => Char.ofNat b.toNat)) ++ salt ++ [':', ':'] ++ (dec index).map (fun b => Char.ofNat b.toNat) ++ [':', ':', '$', '?']
+/-- `DIVIDER_EXIT_CODE_VARIABLE`: the shell variable that takes the exit code of an expression to
+its divider -/
+def EXITVAR : List Char :=
+  ['_', '_', 'S', 'C', 'R', 'U', 'T', '_', 'E', 'X', 'I', 'T', '_', 'C', 'O', 'D', 'E']
 
-/-- lines of the script for test `index` -/
+/-- the line `__SCRUT_EXIT_CODE=$?`: a command of its own that takes the exit code of the expression
+(an expression that ends in `|` makes THIS command, and not the divider `echo`, the rest of its
+pipeline: the divider is then left without an exit code) -/
+def assignLine : List Char := EXITVAR ++ ['=', '$', '?']
+
+/-- the line `unset __SCRUT_EXIT_CODE` that closes the footer of a test -/
+def unsetLine : List Char := ['u', 'n', 's', 'e', 't', ' '] ++ EXITVAR
+
+/-- `generate_divider`: `~~~~~~~~EXECDIVIDER::<salt>::<index>::$__SCRUT_EXIT_CODE` -/
+def dividerText (salt : List Char) (index : Nat) : List Char :=
+  (PREFIX.map (fun b => Char.ofNat b.toNat)) ++ salt ++ [':', ':'] ++ (dec index).map (fun b => Char.ofNat b.toNat) ++ [':', ':', '$'] ++ EXITVAR
+
+/-- the line `echo "<divider>"` -/
+def echoLine (salt : List Char) (index : Nat) : List Char :=
+  ['e', 'c', 'h', 'o', ' ', '"'] ++ dividerText salt index ++ ['"']
+
+/-- the line `1>&2 echo "<divider>"` -/
+def echoErrLine (salt : List Char) (index : Nat) : List Char :=
+  ['1', '>', '&', '2', ' ', 'e', 'c', 'h', 'o', ' ', '"'] ++ dividerText salt index ++ ['"']
+
+/-- lines of the script for test `index`: the expression, an empty line, `__SCRUT_EXIT_CODE=$?`,
+`echo "<divider>"`, `1>&2 echo "<divider>"` (unless combined), `unset __SCRUT_EXIT_CODE` -/
 def testLines (salt : List Char) (combined : Bool) (index : Nat) (expr : List Char) : List (List Char) :=
-  let footer := dividerText salt index
-  [expr, [], "echo \"".toList ++ footer ++ ['"']] ++
-    (if combined then [] else ["1>&2 echo \"".toList ++ footer ++ ['"']])
+  [expr, [], assignLine, echoLine salt index] ++
+    (if combined then [] else [echoErrLine salt index]) ++ [unsetLine]
 
 def scriptLines (salt : List Char) (combined : Bool) : Nat → List (List Char) → List (List Char)
   | _, [] => []
